@@ -67,7 +67,7 @@ GetInt(ev) ==
        ELSE Chk(ev.out = "out_of_range", "integer getter: absent argument must throw out_of_range")
   /\ Finish(ev, k.p, k.n)
 FloatValueOk(ev, f) ==
-  IF f.special \/ ~f.exact \/ ev.dbl = 0 THEN TRUE
+  IF f.special \/ ~f.exact \/ ev.dbl = 0 \/ f.exp > 300 \/ f.exp < -300 THEN TRUE      \* outside the normal double range only the outcome is fixed
   ELSE /\ ev.fneg = (IF f.neg THEN 1 ELSE 0)
        /\ ev.fdigits = f.digits
        /\ (f.digits # [i \in 1..9 |-> 0] => ev.fexp = f.exp)
